@@ -10,11 +10,11 @@ import (
 type World struct {
 	Disk     *Disk
 	Sched    *Sched
-	Order    *Tape // decides map iteration orders and hashmap span picks when MapOrder == 2
-	MapOrder int   // 0 ascending/lowest, 1 descending/highest, 2 tape-chosen
-	FLObs    func(db *bolt.DB, ev *fl.VerifEvent)
-	OnWrite  func(db *bolt.DB, off int64, n int) // observer called before every pwrite
-	OnPoint  func(db *bolt.DB, point string)     // observer called at every yield point (before parking)
+	Order    *Tape                                                // decides map iteration orders and hashmap span picks when MapOrder == 2
+	MapOrder int                                                  // 0 ascending/lowest, 1 descending/highest, 2 tape-chosen
+	FLObs    func(db *bolt.DB, f fl.Interface, ev *fl.VerifEvent) // f is the observed (underlying) freelist
+	OnWrite  func(db *bolt.DB, off int64, n int)                  // observer called before every pwrite
+	OnPoint  func(db *bolt.DB, point string)                      // observer called at every yield point (before parking)
 }
 
 func (w *World) perm(n int) []int {
@@ -103,7 +103,7 @@ func (w *World) Install() {
 	}
 	if w.FLObs != nil {
 		h.Freelist = func(db *bolt.DB, f fl.Interface) fl.Interface {
-			return fl.VerifObserve(f, func(ev *fl.VerifEvent) { w.FLObs(db, ev) })
+			return fl.VerifObserve(f, func(ev *fl.VerifEvent) { w.FLObs(db, f, ev) })
 		}
 	}
 	pick := w.pick
